@@ -809,7 +809,7 @@ fn giant_inputs(prop: &str, seed: u64, w: u32, thorough: bool) -> Inputs {
             let ten = vec![10u8];
             let mut p = gen::small(n, 1);
             let mut kk = 0u32;
-            let step = if thorough { 1 } else { 61 };
+            let step = if thorough || w <= 2080 { 1 } else { 61 };
             let off = (seed % step as u64) as u32;
             loop {
                 if kk % step == off || kk < 2 {
